@@ -255,7 +255,15 @@ class FnView:
         for v in fn['vars']:
             pl = v['pl']
             if not pl['p']:
-                self.varnames.setdefault(pl['l'], v['name'])
+                if pl['l'] in self.varnames:
+                    continue
+                nm = v['name']
+                used = set(self.varnames.values())
+                k = 2
+                while nm in used:
+                    nm = "%s'%d" % (v['name'], k)
+                    k += 1
+                self.varnames[pl['l']] = nm
             else:
                 # closure upvar: _1.^name or (*_1).^name ...
                 self.upvars[(pl['l'], tuple(pl['p']))] = v['name']
@@ -833,3 +841,41 @@ def enum_const(e):
     if e[0] == 'agg' and e[1] not in ('(tuple)', '(array)', '(closure)'):
         return (e[1], e[2])
     return None
+
+
+def fold(e):
+    """Constant-fold an expression made of integer constants, casts and arithmetic; None when
+    not constant."""
+    k = e[0]
+    if k == 'const':
+        return e[1] if isinstance(e[1], (int, bool)) else None
+    if k == 'cast':
+        return fold(e[1])
+    if k == 'proj' and e[2] == ('.0',):
+        return fold(e[1])
+    if k == 'bin':
+        a, b = fold(e[2]), fold(e[3])
+        if a is None or b is None:
+            return None
+        a, b = int(a), int(b)
+        op = e[1].replace('WithOverflow', '').replace('Unchecked', '')
+        try:
+            return {'Shl': lambda: a << b, 'Shr': lambda: a >> b, 'BitOr': lambda: a | b, 'BitAnd': lambda: a & b,
+                    'Add': lambda: a + b, 'Sub': lambda: a - b, 'Mul': lambda: a * b, 'BitXor': lambda: a ^ b,
+                    'Div': lambda: a // b if b else None}.get(op, lambda: None)()
+        except Exception:
+            return None
+    return None
+
+
+def var_inits(view, name):
+    """Direct whole-variable assignments to the user variable `name` (for `mut` locals that
+    expression resolution deliberately does not see through)."""
+    out = []
+    for (i, j, s) in view.stmts():
+        if s['k'] == 'assign' and not s['lhs']['p'] and view.varnames.get(s['lhs']['l']) == name:
+            out.append((i, view.rvalue_expr(s['rv'], i)))
+    for cs in view.calls(skip_log=False):
+        if not cs.dest['p'] and view.varnames.get(cs.dest['l']) == name:
+            out.append((cs.bb, ('call', cs.nfn, tuple(cs.arg(i) for i in range(len(cs.args))), cs.bb)))
+    return out
